@@ -429,6 +429,13 @@ def probe_drops_untimed(F):
     return 1 if len(fi.get_time_range(hint='remove_nans')) == 1 else 0
 
 
+def probe_keeps_unavailable(F, env):
+    """Does reader.filter_in_place(source_ids=...) keep a requested id it has not discovered in the log?"""
+    rd = F['MixedLogReader'](env.path, num_threads=1)
+    rd.filter_in_place(None, source_ids={env.avail[0] if env.avail else 0, 999})
+    return 1 if 999 in set(rd.requested_source_ids) else 0
+
+
 def registry_text(F):
     M = F['M']
     rows = []
@@ -599,7 +606,7 @@ def one_history(ctx, F, env, hist, reg, drops, lines, pending):
     for c in hist:
         k, s = env.selection(c)
         sels[k] = s
-    reader = '%d/%s/%s' % (drops, dots(env.avail, '-'), '|'.join('%s=%s' % (k, dots(v)) for k, v in sorted(sels.items())))
+    reader = '%s/%s/%s' % (drops, dots(env.avail, '-'), '|'.join('%s=%s' % (k, dots(v)) for k, v in sorted(sels.items())))
     line = 'loader %s %s %s %s %s' % (VARIANT, reg, reader, env.log_text(), ';'.join(call_text(F, c) for c in hist))
     lines.append(line)
     pending.append((env, hist, out))
@@ -610,8 +617,6 @@ def one_history(ctx, F, env, hist, reg, drops, lines, pending):
 def run(ctx, nlogs, per_log, maxlen, fresh_spec=True):
     F = fe()
     reg = registry_text(F)
-    drops = probe_drops_untimed(F)
-    ctx.count('reader_remove_nans_effective', drops)
     rng = ctx.rng
     lines, pending = [], []
     envs = []
@@ -619,6 +624,10 @@ def run(ctx, nlogs, per_log, maxlen, fresh_spec=True):
     corpus_spec = [(E, None, 0), (P, 2, 0), (P, 4, 1), (A, 4, 0), (G, 4, 0), (E, None, 0), (A, 6, 0), (G, 6, 1), (E, None, 0), (P, 8, 0)]
     env0 = Env(F, corpus_spec, 'corpus')
     envs.append(env0)
+    nan_flag, keep_flag = probe_drops_untimed(F), probe_keeps_unavailable(F, env0)
+    ctx.count('reader_remove_nans_effective', nan_flag)
+    ctx.count('reader_keeps_undiscovered_source_ids', keep_flag)
+    drops = '%d/%d' % (nan_flag, keep_flag)       # the measured reader behaviours handed to the model
     D = DEFAULT_CALL
     corpus = [
         [dict(D, types=(P, A), numpy=True, keep=False), dict(D, types=(P, A))],
@@ -671,7 +680,7 @@ def run(ctx, nlogs, per_log, maxlen, fresh_spec=True):
                     check_fresh_spec(ctx, env, c, env.fresh(c))
                     ctx.count('fresh_spec_checked')
                     tk, sel = env.selection(c)
-                    reader = '%d/%s/%s=%s' % (drops, dots(env.avail, '-'), tk, dots(sel))
+                    reader = '%s/%s/%s=%s' % (drops, dots(env.avail, '-'), tk, dots(sel))
                     spec_lines.append('loaderspec %s %s %s %s' % (reg, reader, env.log_text(), k))
                     spec_pending.append((env, c))
     spec_outs = ctx.driver(spec_lines)
@@ -745,7 +754,8 @@ def replay(ctx, path):
                 c[k] = tuple(c[k])
         hist.append(c)
     lines, pending = [], []
-    one_history(ctx, F, env, hist, registry_text(F), probe_drops_untimed(F), lines, pending)
+    one_history(ctx, F, env, hist, registry_text(F), '%d/%d' % (probe_drops_untimed(F), probe_keeps_unavailable(F, env)),
+                lines, pending)
     for c in hist:
         check_fresh_spec(ctx, env, c, env.fresh(c))
     outs = ctx.driver(lines)
